@@ -5,7 +5,7 @@ import random
 from .. import common as C
 from ..gen_inv import PlanGen
 from .. import progcheck as PC
-from .dispatch_common import plan_summary
+from .dispatch_common import plan_summary, d4_blocks
 from . import variants as V
 from . import groupcorr
 
@@ -66,6 +66,10 @@ def run(tier, seed, replay=None):
             rep.case(ev.plan.invocation_text(), len(ev.plan.blocks()) >= 2,
                      sample={**plan_summary(ev.plan), "order": list(label[1]), "observable": V.observable(ev)[0]} if label[1][0] != 0 else None)
             obs = V.observable(ev)
+            if obs != ref_obs and d4_blocks(bases[bi]) and "F-D4" in {f_["id"] for f_ in C.findings_for(PROP)}:
+                # D4: a nested block bounding its inner parameter is folded into whichever general family is tried first
+                rep.known("F-D4")
+                break
             if obs != ref_obs:
                 rep.oracle_failures.append({"clause": "permuting the blocks changed " + ("whether the invocation compiles" if obs[0] != ref_obs[0] else "the dispatch table"),
                                             "order_a": list(ref_label[1]), "order_b": list(label[1]),
